@@ -131,7 +131,7 @@ def sweep(run, gen, focus, thorough, crate=None):
              "literal": 0, "runtime": 0, "literal_accepted": 0, "runtime_accepted": 0, "pairs_compared": 0, "accepted_outside_documented": 0}
     plan = []          # (ob, prev value or None, v)
     for ob in obs:
-        vals = slot_values(ob, rng, 40 if thorough else 8)
+        vals = slot_values(ob, rng, 400 if thorough else 8)
         if ob["needs_prev"]:
             f = fs[ob["form"]]
             pc = f.constraints.get(ob["idx"] - 1)
@@ -367,7 +367,7 @@ def sweep_rv(run, gen, focus, thorough):
     plan = []
     for ob in obs:
         ob2 = dict(ob, ty=ob["ty"] if ob["ty"] != "i64" else "i32")
-        vals = set(slot_values(dict(ob, ty="i32" if ob["ty"] != "u32" else "u32"), rng, 40 if thorough else 8))
+        vals = set(slot_values(dict(ob, ty="i32" if ob["ty"] != "u32" else "u32"), rng, 400 if thorough else 8))
         if ob["ty"] == "i64":
             vals |= {(1 << k) + d for k in range(33, 64) for d in (-1, 0)} | {-(1 << k) + d for k in range(33, 64) for d in (0, 1)} | {(1 << 63) - 1, -(1 << 63), 1 << 63}
         for v in sorted(vals):
